@@ -76,6 +76,7 @@ func genC10(g *simrt.Tape, tier string) any {
 		}
 		sc.Callers = append(sc.Callers, cs)
 	}
+	sc.NestMw = g.Draw(5) == 0
 	sc.DefaultDialer = g.Draw(4) == 0
 	sc.DialCtxCancelled = g.Draw(4) == 0
 	closes := g.Draw(3) == 1
@@ -138,6 +139,9 @@ func c10SweepFloor(tier string) []*ClientSc {
 		}}
 	}
 	out := []*ClientSc{mk(2, []ReqBehav{{}}), mk(5, []ReqBehav{{Yields: 2}})}
+	// one caller whose calls spawn nested calls from a middleware
+	out = append(out, &ClientSc{Prop: "C10", Enforce: true, NestMw: true, Behav: []ReqBehav{{Yields: 2}}, FinalClose: true, Callers: []CallerSc{
+		{Calls: []CallSc{{Kind: "request"}, {Kind: "request", Via: "roundtrip"}, {Kind: "request"}}}}})
 	// the same two-caller workload through the other public entry points
 	for _, via := range []string{"roundtrip", "exec"} {
 		out = append(out, &ClientSc{Prop: "C10", Enforce: true, Behav: []ReqBehav{{Yields: 2}}, FinalClose: true, Callers: []CallerSc{
